@@ -6,6 +6,12 @@ ztyp combinators (`Zrnt.SSZ.Impl`) applied to the implementations of the field /
 namespace Zrnt.Schema.Facts
 open Zrnt.SSZ
 
+/-- what a hand-written merkleization computes: `copy` of the slices into zeroed roots, combined with the hash function -/
+def htEval (H : Hash2) (bs : Bytes) : HT → Chunk
+  | .leaf lo hi => padTo32 ((bs.drop lo).take (hi - lo))
+  | .zero => zeroChunk
+  | .node l r => H (htEval H bs l) (htEval H bs r)
+
 /-- the implementation of every Go type, by (package-qualified) name -/
 abbrev Env := Name → Impl
 
